@@ -134,6 +134,41 @@ def _unknown(*rs: T.Set[str]) -> T.List[str]:
     return [x for r in rs for x in r if x.startswith('?')]
 
 
+def _request_raisers(ctx: RuleCtx, mod: Module, roles: Roles) -> T.Dict[str, str]:
+    """Functions of the module that can be left through a control-flow request: they raise an exception class the source derives
+    directly from BaseException (closed world: the classes the module can name), or call such a method on `self` (closure).
+    qualified name -> how (for the message).  Handlers further down the call chain are not subtracted (no request class is
+    caught by every one of them: subdir_done leaves any block)."""
+    cached = getattr(roles, '_raisers', None)
+    if cached is not None:
+        return cached
+    out: T.Dict[str, str] = {}
+    for q, fn in roles.funcs.items():
+        for n in walk_no_nested(fn, include_root=False):
+            if isinstance(n, ast.Raise) and n.exc is not None:
+                e = n.exc.func if isinstance(n.exc, ast.Call) else n.exc
+                if isinstance(e, ast.Name):
+                    rc = ctx.repo.resolve_class(mod, e.id)
+                    if rc is not None and [norm(b) for b in rc[1].bases] == ['BaseException']:
+                        out.setdefault(q, f'{q} raises {e.id}')
+    changed = True
+    while changed:
+        changed = False
+        for q, fn in roles.funcs.items():
+            if q in out:
+                continue
+            owner = q.rsplit('.', 1)[0] if '.' in q else ''
+            for c in walk_no_nested(fn, include_root=False):
+                if isinstance(c, ast.Call) and isinstance(c.func, ast.Attribute) and attr_chain(c.func.value) == 'self':
+                    callee = f'{owner}.{c.func.attr}' if owner else c.func.attr
+                    if callee in out:
+                        out[q] = f'{q} -> {out[callee]}'
+                        changed = True
+                        break
+    roles._raisers = out          # type: ignore[attr-defined]
+    return out
+
+
 def r5(ctx: RuleCtx) -> None:
     mod = ctx.repo.module(IBASE)
     roles = Roles(mod)
@@ -232,9 +267,10 @@ def r5(ctx: RuleCtx) -> None:
 
                 def covered(y: ast.AST) -> bool:
                     for t in ast.walk(f):
+                        if isinstance(t, ast.Try) and any(y is n for b in t.body + t.orelse + [x for h in t.handlers for x in h.body] for n in ast.walk(b)) \
+                                and any(r_ is n for r_ in restores for b in t.finalbody for n in ast.walk(b)):
+                            return True          # a finally runs whatever way the body, a handler or the else part is left
                         if isinstance(t, ast.Try) and any(y is n for b in t.body for n in ast.walk(b)):
-                            if any(r_ is n for r_ in restores for b in t.finalbody for n in ast.walk(b)):
-                                return True
                             for h in t.handlers:
                                 if (h.type is None or norm(h.type) == 'BaseException') and any(r_ is n for r_ in restores for b in h.body for n in ast.walk(b)):
                                     return True
@@ -243,6 +279,37 @@ def r5(ctx: RuleCtx) -> None:
                     if n.id in region and n.ast is not None and n.kind == 'stmt' and any(isinstance(y, (ast.Yield, ast.YieldFrom)) for y in ast.walk(n.ast)) \
                             and not covered(n.ast):
                         leaks.append(cfg.exit_raise)
+                # (e) exceptions of statements OUTSIDE any try (sa.cfg draws exception edges only inside a try): a call that runs build-file
+                #     statements can leave through a control-flow request (continue / break / subdir_done are exceptions derived directly
+                #     from BaseException and are caught further up, evaluation then goes on); while the narrowed range is in force such a
+                #     call must stand under a try whose finally/catch-all stores the saved range back
+                raisers = _request_raisers(ctx, mod, roles)
+                reported = False
+                owner = fq.rsplit('.', 1)[0] if '.' in fq else ''
+                for n in cfg.nodes:
+                    if n.id not in region or n.expr() is None:
+                        continue
+                    for c in walk_no_nested(n.expr()):
+                        if not (isinstance(c, ast.Call) and isinstance(c.func, ast.Attribute) and attr_chain(c.func.value) == 'self') or covered(c):
+                            continue
+                        callee = f'{owner}.{c.func.attr}' if owner else c.func.attr
+                        target = roles.funcs.get(callee)
+                        if target is not None and target is not f and any(_is_table_item(t) for x in walk_no_nested(target, include_root=False)
+                                                                          if isinstance(x, ast.Assign) for t in x.targets):
+                            raise Undecided(f'{fq}: `{short(c)}` runs while the narrowed range is in force and `{callee}` stores into {TABLE}[..] itself: '
+                                            f'a restore inside a helper is not read')
+                        if callee in raisers:
+                            if any(isinstance(t, ast.Try) and any(c is y for b in t.body for y in ast.walk(b))
+                                   and any(r_ is y for r_ in restores for h in t.handlers for b in h.body for y in ast.walk(b)) for t in ast.walk(f)):
+                                raise Undecided(f'{fq}: `{short(c)}` stands under a handler that stores the saved range back but does not catch everything: '
+                                                f'which exceptions it covers is not read')
+                            reported = True
+                            ctx.violation(mod, fq, 'branch left by a control-flow request without restoring the saved range',
+                                          f'`{short(c)}` runs build-file statements while the narrowed range is stored ({raisers[callee]}) and is not inside a try whose '
+                                          f'finally / catch-all handler stores the saved project range back: when the block executes continue, break or subdir_done() '
+                                          f'the narrowed meson_version range stays in force for the rest of the project', c)
+                if reported and not leaks:
+                    continue          # reported above with the call that leaks
                 ctx.require(not leaks, f'{fq}: the saved range is stored back on every way out of the branch', mod, fq, site,
                             f'after `{short(site)}` there is a path to {["the next read of the table" if s in sv else s.kind for s in leaks]} that does not '
                             f'store the saved project range back (the narrowed meson_version range would leak into the following code)', site)
@@ -278,6 +345,13 @@ def r6(ctx: RuleCtx) -> None:
         for ch in ast.iter_child_nodes(x):
             pm[id(ch)] = x
     assert _truth_context(pm, ex.body[0].test) == 'if test', 'truth-context self-test'      # type: ignore[attr-defined]
+    ex2 = ast.parse('if len(matched) > 0 and not failed:\n    pass\n')
+    pm2: T.Dict[int, ast.AST] = {}
+    for x in ast.walk(ex2):
+        for ch in ast.iter_child_nodes(x):
+            pm2[id(ch)] = x
+    names = {n.id: n for n in ast.walk(ex2) if isinstance(n, ast.Name)}
+    assert _tested(pm2, names['matched']) and _tested(pm2, names['failed']) and _in_test(pm2, names['failed']), 'element-test self-test'
     sites = 0
     for rel in ctx.repo.py_files('mesonbuild'):
         if 'version_compare_many' not in ctx.repo.read(rel):
@@ -307,7 +381,124 @@ def r6(ctx: RuleCtx) -> None:
             ctx.require(how is None, f'{rel}:{q}: the verdict of version_compare_many is taken from the tuple, not the tuple itself', mod, q, 'version_compare_many result used as a truth value',
                         f'`{short(parents.get(id(subject), subject), 90)}`: the 3-tuple returned by version_compare_many is used as a truth value ({how}); a non-empty tuple is always '
                         f'true, so the constraint list "holds" whatever the version - index the verdict with [0]', c)
+            _r6_elements(ctx, mod, q, c, parents)
     ctx.floor('call sites of version_compare_many', sites, 1)
+
+
+def _tested(parents: T.Dict[int, ast.AST], u: ast.AST) -> bool:
+    """`u` is looked at as a truth value: directly, or as `len(u)` / `len(u) <op> 0` / `u ==|!= []`."""
+    if _truth_context(parents, u) is not None:
+        return True
+    par = parents.get(id(u))
+    if isinstance(par, ast.Call) and isinstance(par.func, ast.Name) and par.func.id == 'len' and par.args == [u]:
+        if _truth_context(parents, par) is not None:
+            return True
+        u, par = par, parents.get(id(par))
+        return isinstance(par, ast.Compare) and len(par.ops) == 1 and isinstance(([par.left] + par.comparators)[1 if par.left is u else 0], ast.Constant) \
+            and _truth_context(parents, par) is not None
+    if isinstance(par, ast.Compare) and len(par.ops) == 1 and isinstance(par.ops[0], (ast.Eq, ast.NotEq)):
+        other = par.comparators[0] if par.left is u else par.left
+        return isinstance(other, (ast.List, ast.Tuple)) and not other.elts and _truth_context(parents, par) is not None
+    return False
+
+
+def _in_test(parents: T.Dict[int, ast.AST], u: ast.AST) -> bool:
+    """`u` occurs somewhere inside the test of an if/while/conditional expression/assert/comprehension filter."""
+    n: T.Optional[ast.AST] = u
+    while n is not None and not isinstance(n, ast.stmt):
+        par = parents.get(id(n))
+        if isinstance(par, (ast.If, ast.While, ast.IfExp, ast.Assert)) and par.test is n:
+            return True
+        if isinstance(par, ast.comprehension) and any(n is x for x in par.ifs):
+            return True
+        n = par
+    return False
+
+
+def _examined(parents: T.Dict[int, ast.AST], u: ast.AST) -> bool:
+    """The emptiness of `u` may be what is computed: `not u`, `len(u)`, `bool(u)`, `u == ..`, also when the result is named first (C3)."""
+    par = parents.get(id(u))
+    if isinstance(par, ast.UnaryOp) and isinstance(par.op, ast.Not):
+        return True
+    if isinstance(par, ast.Call) and isinstance(par.func, ast.Name) and par.func.id in ('len', 'bool') and par.args == [u]:
+        return True
+    return isinstance(par, (ast.Compare, ast.BoolOp, ast.IfExp)) or _in_test(parents, u)
+
+
+def _r6_elements(ctx: RuleCtx, mod: Module, q: str, c: ast.Call, parents: T.Dict[int, ast.AST]) -> None:
+    """Which ELEMENT of (verdict, failed, satisfied) a call site decides on.  "Every requirement holds" is the verdict or
+    "failed is empty"; "satisfied is non-empty" only says that SOME requirement holds.  A site that tests the satisfied list
+    while it consults neither the verdict (any use) nor the failed list (in a test) decides on the wrong question.  Uses
+    are attributed to the call by reaching definitions on the CFG (the same names may be unpacked again further down)."""
+    par = parents.get(id(c))
+    what = 'version_compare_many: decision taken on the satisfied list only'
+
+    def report(u: ast.AST) -> None:
+        ctx.violation(mod, q, what, f'`{short(parents.get(id(u), u), 90)}` tests the third element of the result of `{short(c, 70)}` (the requirements that matched) and this call site '
+                      f'consults neither the verdict (1st element) nor the failed requirements (2nd element): it accepts as soon as ANY requirement holds, '
+                      f'e.g. a version above the range for [">=11.0", "<12.0"] (a constraint list holds iff each constraint holds)', u)
+    if isinstance(par, ast.Subscript) and par.value is c:
+        if isinstance(par.slice, ast.Constant) and par.slice.value in (2, -1) and _tested(parents, par):
+            report(par)
+        else:
+            ctx.ok(f'{mod.rel}:{q}: element {short(par.slice)} of the result is used')
+        return
+    if not (isinstance(par, ast.Assign) and par.value is c and len(par.targets) == 1 and mod.has_func(q)):
+        return
+    tgt = par.targets[0]
+    fn = mod.func(q)
+    elem: T.Dict[int, T.Optional[str]] = {}          # element index -> local name (None: stored somewhere else, i.e. consulted)
+    whole: T.Optional[str] = None
+    if isinstance(tgt, ast.Tuple):
+        star = [i for i, e in enumerate(tgt.elts) if isinstance(e, ast.Starred)]
+        if len(star) > 1 or (not star and len(tgt.elts) != 3) or len(tgt.elts) > 3 + len(star):
+            raise Undecided(f'{q}: cannot attribute the targets of {short(par)} to (verdict, failed, satisfied)')
+        for i, e in enumerate(tgt.elts):
+            if isinstance(e, ast.Starred):
+                continue
+            k = i if not star or i < star[0] else 3 - (len(tgt.elts) - i)
+            elem[k] = e.id if isinstance(e, ast.Name) else None
+    elif isinstance(tgt, ast.Name):
+        whole = tgt.id
+    else:
+        return
+    cfg = CFG(fn)
+    dn = cfg.stmt_nodes(par)
+    if not dn:
+        raise Undecided(f'{q}: {short(par)} is not in the control-flow graph')
+
+    def reached(name: str) -> T.List[ast.Name]:
+        """Loads of `name` that this assignment reaches (no other binding of the name in between)."""
+        others = [n for n in cfg.nodes if n.ast is not par and n.kind in ('stmt', 'iter', 'with_enter') and n.ast is not None
+                  and any(isinstance(x, ast.Name) and x.id == name and isinstance(x.ctx, (ast.Store, ast.Del))
+                          for x in (ast.walk(n.ast.target) if n.kind == 'iter' else walk_no_nested(n.ast) if n.kind == 'stmt' else
+                                    [y for it in n.ast.items if it.optional_vars is not None for y in ast.walk(it.optional_vars)]))]      # type: ignore[union-attr]
+        region = cfg.reachable(dn, avoid=others)
+        # a rebinding statement still reads its right-hand side before it binds
+        edge = {o.id for o in others if any(o.id == b for r_ in (region | {d.id for d in dn}) for b, _l in cfg.succ[r_])}
+        out: T.List[ast.Name] = []
+        for n in cfg.nodes:
+            if (n.id in region or n.id in edge) and n.expr() is not None:
+                out.extend(x for x in ast.walk(n.expr()) if isinstance(x, ast.Name) and x.id == name and isinstance(x.ctx, ast.Load))     # type: ignore[arg-type]
+        return out
+    uses: T.Dict[int, T.List[ast.AST]] = {0: [], 1: [], 2: []}
+    if whole is not None:
+        for u in reached(whole):
+            sub = parents.get(id(u))
+            if isinstance(sub, ast.Subscript) and sub.value is u and isinstance(sub.slice, ast.Constant) and isinstance(sub.slice.value, int) and -3 <= sub.slice.value < 3:
+                uses[sub.slice.value % 3].append(sub)
+            elif _truth_context(parents, u) is None:
+                return            # the tuple is passed on / unpacked later: not followed
+    else:
+        for k, name in elem.items():
+            if name is not None:
+                uses[k] = list(reached(name))
+    consulted = (0 in elem and elem[0] is None) or bool(uses[0]) or (1 in elem and elem[1] is None) or any(_examined(parents, u) for u in uses[1])
+    tested = [u for u in uses[2] if _tested(parents, u)]
+    if tested and not consulted:
+        report(tested[0])
+    else:
+        ctx.ok(f'{mod.rel}:{q}: the site consults the verdict / the failed requirements' if consulted else f'{mod.rel}:{q}: the satisfied list is not used as a decision')
 
 
 # ---------------------------------------------------------------------------------------------------------
